@@ -78,7 +78,8 @@ def gen(rng, n_cases):
                # another indicator with another metric is alive and has just scored the same points
                "other_metric": METRICS[(t + 1 + rng.randint(2)) % 3] if rng.randint(3) == 0 else None,
                "perm": rng.permutation(n), "shift": np.round(rng.standard_normal(m) * 4) / 4,
-               "scale": float(rng.choice([0.5, 2.0, 3.0, 0.25]))}
+               # uniform scaling, down to objectives measured in very small units (powers of two scale exactly)
+               "scale": float(rng.choice([0.5, 2.0, 3.0, 0.25, 2.0 ** -30, 2.0 ** -40, 2.0 ** 24]))}
 
 
 def case_from_record(rec):
@@ -247,7 +248,7 @@ def oracle_C20(rec):
     if not rec.cfg["z"]:
         if not close(S, rec.out["S_shift"], 1e-7):
             bad.append("spacing changes under translation: %r vs %r" % (S, rec.out["S_shift"]))
-        if not close(S * rec.cfg["scale"], rec.out["S_scale"], 1e-7):
+        if not close(S, rec.out["S_scale"] / rec.cfg["scale"], 1e-7):
             bad.append("spacing not proportional under scaling by %r: %r vs %r" % (rec.cfg["scale"], S, rec.out["S_scale"]))
     return bad
 
